@@ -161,9 +161,11 @@ def main():
 
     # -- harness
     hres = {'evaluations': 0, 'distinct_nontrivial': 0, 'samples': [], 'violations': [], 'known': [], 'notes': []}
-    harness = P.get('harness')
-    if harness:
-        out_json = os.path.join(VERIF, 'build', f'harness_{pid}.json')
+    harnesses = P.get('harness') or []
+    if isinstance(harnesses, str):
+        harnesses = [harnesses]
+    for hi, harness in enumerate(harnesses):
+        out_json = os.path.join(VERIF, 'build', f'harness_{pid}_{hi}.json')
         if os.path.exists(out_json):
             os.remove(out_json)
         cmd = f'/venv/bin/python tools/checks/{harness} --pid {pid} --tier {tier} --seed {seed} --out {out_json}'
@@ -180,7 +182,15 @@ def main():
             rc, out = 124, 'harness timed out'
         log.append(out[-4000:])
         if os.path.exists(out_json):
-            hres = json.load(open(out_json))
+            h1 = json.load(open(out_json))
+            hres['evaluations'] += h1.get('evaluations', 0)
+            hres['distinct_nontrivial'] += h1.get('distinct_nontrivial', 0)
+            hres['samples'] += h1.get('samples', [])[:4]
+            hres['violations'] += h1.get('violations', [])
+            hres['known'] += h1.get('known', [])
+            hres['notes'] += h1.get('notes', [])
+            hres.setdefault('distribution', {})[harness] = h1.get('distribution', {})
+            hres['rule'] = (hres.get('rule', '') + ' | ' if hres.get('rule') else '') + f"{harness}: {h1.get('rule', '')}"
         else:
             broken.append(f'harness {harness} crashed (rc={rc}): {out[-600:]}')
 
